@@ -560,8 +560,13 @@ def run_l2(run_seed: int, cfg: dict) -> L2Result:
 
 
 def gen_l3_cfg(rng) -> dict:
-    return {"requests": rng.choice((1, 2, 4, 8)), "bufsize_client": rng.choice((1, 16, 8192)), "bufsize_broker": rng.choice((1, 16, 8192)),
-            "sched_seed": rng.getrandbits(48)}
+    n = rng.choice((1, 2, 4, 8))
+    cfg = {"requests": n, "bufsize_client": rng.choice((1, 16, 8192)), "bufsize_broker": rng.choice((1, 16, 8192)),
+           "sched_seed": rng.getrandbits(48), "crash": None}
+    if rng.random() < 0.4:
+        # the client process dies after sending a fraction of frame j (crash point inside a live stream)
+        cfg["crash"] = [rng.randrange(n), rng.random()]
+    return cfg
 
 
 def run_l3(run_seed: int, cfg: dict, forced: list | None = None) -> tuple[str | None, dict]:
@@ -754,10 +759,23 @@ def run_l3(run_seed: int, cfg: dict, forced: list | None = None) -> tuple[str | 
         entity_writer(cls)(w, payload)
         w.flush()
 
+    crash = cfg.get("crash")
+    outcome = {"broker_end": None, "torn_at": None}
+
     def client():
         r = io.BufferedReader(RawR(s2c, "client"), buffer_size=max(16, cfg["bufsize_client"]))
         w = io.BufferedWriter(RawW(c2s, "client"), buffer_size=cfg["bufsize_client"])
-        for req_cls, hdr, req, resp_cls, rh, resp in plan_:
+        for k_req, (req_cls, hdr, req, resp_cls, rh, resp) in enumerate(plan_):
+            if crash is not None and crash[0] == k_req:
+                tmp = io.BytesIO()
+                frame(tmp, req_cls.__header_schema__, hdr, req_cls, req)
+                whole = tmp.getvalue()
+                cut = min(len(whole) - 1, int(crash[1] * len(whole)))
+                outcome["torn_at"] = [cut, len(whole)]
+                w.write(whole[:cut])
+                w.flush()
+                w.close()
+                return
             sent_req.append((hdr, req))
             frame(w, req_cls.__header_schema__, hdr, req_cls, req)
             # kio reads straight from the live stream (no intermediate BytesIO)
@@ -782,10 +800,19 @@ def run_l3(run_seed: int, cfg: dict, forced: list | None = None) -> tuple[str | 
                 try:
                     read_int32(r)
                 except BufferUnderflow:
-                    break  # clean EOF between frames
+                    outcome["broker_end"] = "eof-at-or-inside-size-prefix"
+                    break  # clean EOF between frames (or the crash landed inside the size prefix)
                 req_cls, hdr, req, resp_cls, rh, resp = plan_[k]
-                h2 = entity_reader(req_cls.__header_schema__)(r)
-                q2 = entity_reader(req_cls)(r)
+                try:
+                    h2 = entity_reader(req_cls.__header_schema__)(r)
+                    q2 = entity_reader(req_cls)(r)
+                except BufferUnderflow:
+                    if crash is not None and crash[0] == k:
+                        outcome["broker_end"] = "underflow-inside-torn-frame"
+                        break
+                    raise
+                if crash is not None and crash[0] == k:
+                    viol.append("L3:torn-frame-decoded-to-a-value")
                 recv_req.append((h2, q2))
                 if (h2, q2) != (hdr, req) or type(q2) is not req_cls:
                     viol.append("L3:request-differs-from-sent")
@@ -808,8 +835,11 @@ def run_l3(run_seed: int, cfg: dict, forced: list | None = None) -> tuple[str | 
     if not viol:
         if recv_req != sent_req:
             viol.append("L3:requests-received-not-equal-to-sent")
-        if bytes(c2s.got) != bytes(c2s.sent) or bytes(s2c.got) != bytes(s2c.sent):
+        if crash is None and (bytes(c2s.got) != bytes(c2s.sent) or bytes(s2c.got) != bytes(s2c.sent)):
             viol.append("L3:bytes-not-fully-consumed")
+        if crash is not None and outcome["broker_end"] is None:
+            viol.append("L3:broker-did-not-notice-the-crash")
+    info["crash"] = outcome
     return (viol[0] if viol else None), info
 
 
@@ -907,6 +937,9 @@ def run_task(task: dict) -> dict:
             stats.inc("l3_switches", info["switches"])
             stats.inc("l3_scheduler_decisions", len(info["decisions"]))
             stats.inc("l3_bytes", info["bytes"])
+            if cfg.get("crash") is not None:
+                stats.inc("fault_l3_peer_crash_inside_frame")
+                stats.inc("l3_crash_" + str((info.get("crash") or {}).get("broker_end")))
             import hashlib
 
             distinct.add(hashlib.sha256(core.canon([cfg, info["decisions"]]).encode()).hexdigest()[:16])
